@@ -216,8 +216,8 @@ fn dec_cases(tier: Tier) -> Vec<DecCase> {
         for e in Enc::ALL {
             let plain = vec![0u8; 1000];
             let z = comp::compress(e, &plain);
-            for delta in [-1i64, 0, 1, 10] {
-                let limit = (z.len() as i64 + delta) as usize;
+            // ... and limits around the DEcompressed length (999, 1000, 1001): the wire length is far below, so all pass
+            for limit in [z.len() - 1, z.len(), z.len() + 1, z.len() + 10, plain.len() - 1, plain.len(), plain.len() + 1] {
                 let frames = vec![(0u8, vec![1, 2]), (1u8, z.clone()), (0u8, vec![3])];
                 out.push(DecCase { frames, bare_prefix: None, enc: Some(e), limit: Some(limit), response, fixed: None, sized: false });
             }
@@ -235,6 +235,14 @@ fn dec_cases(tier: Tier) -> Vec<DecCase> {
             out.push(DecCase { frames: frames.clone(), bare_prefix: None, enc: None, limit: None, response, fixed: Some(vec![8, 5, 1 << 20]), sized: false });
             if tier == Tier::Thorough {
                 out.push(DecCase { frames, bare_prefix: None, enc: None, limit: None, response, fixed: Some(vec![]), sized: false });
+            }
+        }
+        // a compressed message that decompresses to exactly / one more than the default limit: its wire
+        // length is tiny, so it passes
+        for e in Enc::ALL {
+            for l in [MIB4, MIB4 + 1] {
+                let z = comp::compress(e, &vec![0u8; l]);
+                out.push(DecCase { frames: vec![(1u8, z), (0u8, vec![3u8; 3])], bare_prefix: None, enc: Some(e), limit: None, response, fixed: Some(vec![]), sized: false });
             }
         }
         for n in [MIB4 as u32 + 1, 1 << 24, u32::MAX] {
@@ -496,7 +504,7 @@ pub fn property(tier: Tier) -> Property {
     let dec = Section::new(
         "decode-limit",
         Config { max_bound: tier.q(1, 2), ..Default::default() },
-        "cases: limit L in {0,1,5,64,default 4 MiB, and 2^32, 2^32+16, 2^33, 2^40+3, usize::MAX with small messages that must be accepted} x a message of wire length L-1/L/L+1 (identity; gzip/deflate/zstd with the limit placed around the compressed length, also for a 1000-byte message that compresses to far below the limit it must pass under) at position 1/2/3 of a stream (also as a body that announces its exact total length, as one that arrived with a content-length does), and bare 5-byte prefixes declaring L+1, 2^24, 2^32-1 with nothing after them, x request/response; environment: every chunking with <= bound cuts (incl. the cut right after the prefix) plus drip; oracle: accepted iff wire length <= L, else OUT_OF_RANGE with no chunk requested beyond the one completing the prefix and (declared >= 1 MiB) no allocation >= the declared length (tracking allocator). Non-trivial = some message exactly at or over the limit.",
+        "cases: limit L in {0,1,5,64,default 4 MiB, and 2^32, 2^32+16, 2^33, 2^40+3, usize::MAX with small messages that must be accepted} x a message of wire length L-1/L/L+1 (identity; gzip/deflate/zstd with the limit placed around the compressed length, also for a 1000-byte message that compresses to far below the limit it must pass under, with limits around its compressed and around its decompressed length) at position 1/2/3 of a stream (also as a body that announces its exact total length, as one that arrived with a content-length does), and bare 5-byte prefixes declaring L+1, 2^24, 2^32-1 with nothing after them, x request/response; environment: every chunking with <= bound cuts (incl. the cut right after the prefix) plus drip; oracle: accepted iff wire length <= L, else OUT_OF_RANGE with no chunk requested beyond the one completing the prefix and (declared >= 1 MiB) no allocation >= the declared length (tracking allocator). Non-trivial = some message exactly at or over the limit.",
         dec_cases(tier),
         |c: &DecCase| format!("frames={:?} bare={:?} enc={} limit={:?} response={} fixed={:?} sized={}", c.frames.iter().map(|(f, p)| (*f, p.len())).collect::<Vec<_>>(), c.bare_prefix, enc_name(c.enc), c.limit, c.response, c.fixed.as_ref().map(|v| v.len()), c.sized),
         dec_body,
